@@ -40,6 +40,8 @@ pub struct ExecStats {
     pub bitfinex_remapped_via_validator: bool,
     pub bitfinex_buffered_snapshots: u64,
     pub per_probe: Vec<String>,
+    pub dated_contracts_checked: u64,
+    pub dated_contracts_near_year_boundary: u64,
 }
 
 pub struct ExecResult {
@@ -258,6 +260,47 @@ pub fn exec_case(case: &Case, env: &Env) -> ExecResult {
         match single_token(def, case.sub_type, ins) {
             Ok(t) => toks.push(t),
             Err(e) => harness!(e),
+        }
+    }
+    // 1b. dated contracts: a market id derived from the instrument definition must carry the
+    // contract's CALENDAR expiry date in the venue's documented format (Okx "YYMMDD", eg "230526" =
+    // 26th of May 2023; Gateio "YYYYMMDD", eg "20241231" - both taken from the repo's own doc
+    // comments). Otherwise the subscription addresses another contract of the venue and that
+    // contract's messages get attributed to this instrument. Rendered here from year/month/day
+    // accessors, independently of any strftime specifier.
+    if case.sub_type == SubType::Keyed && matches!(def.venue, Venue::Okx | Venue::GateioDeriv) {
+        use chrono::Datelike;
+        for (ins, t) in case.instruments.iter().zip(&toks) {
+            let expiry_ms = match &ins.kind {
+                KindSpec::Future { expiry_ms } => *expiry_ms,
+                KindSpec::Option { expiry_ms, .. } => *expiry_ms,
+                _ => continue,
+            };
+            let date = chrono::DateTime::<chrono::Utc>::from_timestamp_millis(expiry_ms).expect("expiry").date_naive();
+            let want = if def.venue == Venue::Okx {
+                format!("{:02}{:02}{:02}", date.year() % 100, date.month(), date.day())
+            } else {
+                format!("{:04}{:02}{:02}", date.year(), date.month(), date.day())
+            };
+            res.stats.dated_contracts_checked += 1;
+            if date.iso_week().year() != date.year() {
+                res.stats.dated_contracts_near_year_boundary += 1;
+            }
+            if !t.token.contains(&want) {
+                res.fired.push(Fired {
+                    signature: "dated_contract_market_does_not_carry_its_expiry_date",
+                    detail: format!(
+                        "{}: instrument {}/{} {} expiring {date} is subscribed under venue market {:?}, which does not contain the calendar expiry {want} (a different contract of the venue)",
+                        def.name,
+                        ins.base,
+                        ins.quote,
+                        ins.kind.class(),
+                        t.token
+                    ),
+                    probe: None,
+                });
+                return res;
+            }
         }
     }
     let echoed: Vec<String> = toks.iter().map(|t| venue::echo(def.venue, &t.token)).collect();
